@@ -646,6 +646,8 @@ impl IdlArcSqliteWriteTransaction<'_> {
         } = self;
 
         // Write any dirty items to the disk.
+        #[cfg(feature = "verif-hooks")]
+        crate::verif::txn::pause("w.flush");
         entry_cache
             .iter_mut_mark_clean()
             .try_for_each(|(k, v)| match v {
@@ -707,19 +709,37 @@ impl IdlArcSqliteWriteTransaction<'_> {
             })?;
 
         // Ensure the db commit succeeds first.
+        #[cfg(feature = "verif-hooks")]
+        crate::verif::txn::pause("w.sql_commit");
         db.commit()?;
 
         #[cfg(feature = "verif-hooks")]
         crate::verif::txn::crash_point("post_sql_commit");
         // Can no longer fail from this point.
+        #[cfg(feature = "verif-hooks")]
+        crate::verif::txn::pause("w.op_ts_max");
         op_ts_max.commit();
+        #[cfg(feature = "verif-hooks")]
+        crate::verif::txn::pause("w.name_cache");
         name_cache.commit();
+        #[cfg(feature = "verif-hooks")]
+        crate::verif::txn::pause("w.idx_exists");
         idx_exists_cache.commit();
+        #[cfg(feature = "verif-hooks")]
+        crate::verif::txn::pause("w.idl_cache");
         idl_cache.commit();
+        #[cfg(feature = "verif-hooks")]
+        crate::verif::txn::pause("w.allids");
         allids.commit();
+        #[cfg(feature = "verif-hooks")]
+        crate::verif::txn::pause("w.maxid");
         maxid.commit();
+        #[cfg(feature = "verif-hooks")]
+        crate::verif::txn::pause("w.keyhandles");
         keyhandles.commit();
         // Unlock the entry cache last to remove contention on everything else.
+        #[cfg(feature = "verif-hooks")]
+        crate::verif::txn::pause("w.entry_cache");
         entry_cache.commit();
 
         Ok(())
@@ -1364,13 +1384,27 @@ impl IdlArcSqlite {
 
     pub fn read(&self) -> Result<IdlArcSqliteReadTransaction<'_>, OperationError> {
         // IMPORTANT! Always take entrycache FIRST
+        #[cfg(feature = "verif-hooks")]
+        crate::verif::txn::pause("r.entry_cache");
         let entry_cache_read = self.entry_cache.read();
+        #[cfg(feature = "verif-hooks")]
+        crate::verif::txn::pause("r.sqlite_begin");
         let db_read = self.db.read()?;
+        #[cfg(feature = "verif-hooks")]
+        crate::verif::txn::pause("r.idl_cache");
         let idl_cache_read = self.idl_cache.read();
+        #[cfg(feature = "verif-hooks")]
+        crate::verif::txn::pause("r.name_cache");
         let name_cache_read = self.name_cache.read();
+        #[cfg(feature = "verif-hooks")]
+        crate::verif::txn::pause("r.idx_exists");
         let idx_exists_cache_read = self.idx_exists_cache.read();
+        #[cfg(feature = "verif-hooks")]
+        crate::verif::txn::pause("r.allids");
         let allids_read = self.allids.read();
 
+        #[cfg(feature = "verif-hooks")]
+        crate::verif::txn::pause("r.be_meta");
         Ok(IdlArcSqliteReadTransaction {
             db: db_read,
             entry_cache: entry_cache_read,
